@@ -201,7 +201,7 @@ def taintOf (ts : List (Key × String)) (k : Key) : Option String := (ts.find? (
 /-- The statement is inside the envelope in which Impl and Spec agree. -/
 def okOp (es : List Entry) : Op → Bool
   | .createUser _ _ _ lock => !lock
-  | .dropUser k => hasKey es k && k.2 != "127.0.0.1" && k.2 != "::1" && (withKey es k).length ≤ 1
+  | .dropUser k => hasKey es k && k.2 != "127.0.0.1" && k.2 != "::1"
   | .dmlUpdate k u =>
     match withKey es k with
     | [] => true
